@@ -55,9 +55,63 @@ WalkDiag(m, off) == {<<off + SM!GOnes(m)[n][1], SM!WalkAxes(m)[n]>> : n \in 1..S
 QDiag == WalkDiag(gm, NI) \cup {<<p[1], 10 + p[2]>> : p \in WalkDiag(am, NI + NG)}      \* accel axes tagged 11..13
 QMay == (InsNoisy \X InsNoisy) \cup {<<p[1], p[1]>> : p \in QDiag}
 
+(***************************************************************************)
+(* Block TERMS (third round): what stands in every block of the joint      *)
+(* matrices, as a formula over the public pieces - error_model.            *)
+(* system_matrices(pva) = (Fii, Fig, Fia), the sensor models' F, G, H(r),  *)
+(* J, P, q, v, the measurement model's H, transform_to_internal(pva) = T.  *)
+(* The harness interprets the terms with the real objects and compares the *)
+(* result with the matrices captured at kalman.compute_process_matrices /  *)
+(* kalman.correct during real filter runs (filters.py:44-115, 305-306).    *)
+(***************************************************************************)
+StateBlocks == <<"ins", "gyro", "accel">>
+NoiseBlocks == <<"gyro_out", "accel_out", "gyro_walk", "accel_walk">>
+BlockSize(b) == CASE b = "ins" -> NI [] b = "gyro" -> NG [] b = "accel" -> NA
+                  [] b = "gyro_out" -> NOG [] b = "accel_out" -> NOA [] b = "gyro_walk" -> NWG [] b = "accel_walk" -> NWA
+RECURSIVE OffsetIn(_, _)
+OffsetIn(seq, k) == IF k = 1 THEN 0 ELSE OffsetIn(seq, k - 1) + BlockSize(seq[k - 1])
+FTerm(rb, cb) == CASE rb = "ins" /\ cb = "ins" -> "Fii"
+                   [] rb = "ins" /\ cb = "gyro" -> "Fig*Hg"          \* gyro errors H_g(rate) x_g enter through the gyro coupling matrix
+                   [] rb = "ins" /\ cb = "accel" -> "Fia*Ha"
+                   [] rb = "gyro" /\ cb = "gyro" -> "gyro.F"
+                   [] rb = "accel" /\ cb = "accel" -> "accel.F"
+                   [] OTHER -> "0"
+GTerm(rb, nb) == CASE rb = "ins" /\ nb = "gyro_out" -> "Fig*gyro.J"   \* output noise of the gyros enters like a gyro error
+                   [] rb = "ins" /\ nb = "accel_out" -> "Fia*accel.J"
+                   [] rb = "gyro" /\ nb = "gyro_walk" -> "gyro.G"
+                   [] rb = "accel" /\ nb = "accel_walk" -> "accel.G"
+                   [] OTHER -> "0"
+QTerm(nb) == CASE nb = "gyro_out" -> "gyro.v" [] nb = "accel_out" -> "accel.v"
+               [] nb = "gyro_walk" -> "gyro.q" [] nb = "accel_walk" -> "accel.q"       \* intensity vector of each noise block
+P0Term(rb, cb) == CASE rb = "ins" /\ cb = "ins" -> "T*Ppva*T'" [] rb = "gyro" /\ cb = "gyro" -> "gyro.P"
+                    [] rb = "accel" /\ cb = "accel" -> "accel.P" [] OTHER -> "0"
+HTerm(cb) == IF cb = "ins" THEN "H" ELSE "0"                           \* aiding measurements observe the INS error states only
+TermTable == <<"TERMS",
+               [i \in 1..3 |-> [j \in 1..3 |-> FTerm(StateBlocks[i], StateBlocks[j])]],
+               [i \in 1..3 |-> [j \in 1..4 |-> GTerm(StateBlocks[i], NoiseBlocks[j])]],
+               [j \in 1..4 |-> QTerm(NoiseBlocks[j])],
+               [i \in 1..3 |-> [j \in 1..3 |-> P0Term(StateBlocks[i], StateBlocks[j])]],
+               [j \in 1..3 |-> HTerm(StateBlocks[j])]>>
+\* the terms agree with the may-be-non-zero patterns above: a block is "0" exactly when the pattern leaves it empty
+BlockRows(i) == (OffsetIn(StateBlocks, i) + 1)..(OffsetIn(StateBlocks, i) + BlockSize(StateBlocks[i]))
+TermsMatchSupport ==
+  \A i, j \in 1..3 :
+     (BlockSize(StateBlocks[i]) > 0 /\ BlockSize(StateBlocks[j]) > 0) =>
+        LET hit == \E p \in FMay : p[1] \in BlockRows(i) /\ p[2] \in BlockRows(j)
+            sensorDiag == i = j /\ i > 1        \* gyro.F / accel.F are zero matrices today (random constants), but they are the models' to define
+        IN (FTerm(StateBlocks[i], StateBlocks[j]) = "0") <=> (~hit /\ ~sensorDiag)
+\* each noise block has its own intensity vector of the block's size, in the same order as the columns of G
+NoiseOrder == /\ OffsetIn(NoiseBlocks, 4) + BlockSize(NoiseBlocks[4]) = NNoise
+              /\ \A j \in 1..4 : \E i \in 1..3 : GTerm(StateBlocks[i], NoiseBlocks[j]) # "0"
+              /\ \A j \in 1..4 : Cardinality({i \in 1..3 : GTerm(StateBlocks[i], NoiseBlocks[j]) # "0"}) = 1
+\* sensor states are driven by their own walk noise only; output noises drive the INS states only
+NoiseRouting == /\ \A j \in {1, 2} : GTerm("ins", NoiseBlocks[j]) # "0"
+                /\ \A j \in {3, 4} : GTerm("ins", NoiseBlocks[j]) = "0"
+
 Init == alt \in BOOLEAN /\ gm \in Masks /\ am \in Masks /\ emitted = FALSE
 Emit == ~emitted /\ PrintT(<<"JOINT", alt, gm, am, NStates, NNoise, FMay, QMay, QDiag,
                             [k \in 1..NG |-> SM!States(gm)[k]], [k \in 1..NA |-> SM!States(am)[k]]>>)
+        /\ PrintT(TermTable)
         /\ emitted' = TRUE /\ UNCHANGED <<alt, gm, am>>
 Next == Emit
 Spec == Init /\ [][Next]_vars
